@@ -72,7 +72,7 @@ def make_options(rng, sysd, workdir, res, allow=("plain", "c_full", "c_prefix", 
     if mode == "dens":
         kw["density"] = round(min(rng.uniform(50, 300), T.total_mass(sysd) * 1.6605410 / 2.6 ** 3), 3)
         info["box_src"] = "density"
-    elif mode in ("c_full", "c_prefix", "c_res", "mc", "mc_res"):
+    elif mode in ("c_full", "c_prefix", "c_res", "mc", "mc_res", "c_mc"):
         base = base_build(sysd, workdir, box)
         if base is None:
             return None, info
@@ -100,6 +100,13 @@ def make_options(rng, sysd, workdir, res, allow=("plain", "c_full", "c_prefix", 
             kw["build_res"] = [drop]
             sup = [g for g in groups if g["resname"] != drop]
             info["build_res"] = drop
+        elif mode == "c_mc":
+            # atoms for the first residues (-c) and, in the same run, centres for those and further residues (-mc)
+            if len(groups) < 2:
+                return None, info
+            k1 = rng.randint(1, len(groups) - 1)
+            sup = groups[:rng.randint(k1 + 1, len(groups))]
+            info["c_part"] = groups[:k1]
         else:
             k = rng.randint(max(1, len(groups) // 2), len(groups))
             sup = groups[:k]
@@ -110,7 +117,14 @@ def make_options(rng, sysd, workdir, res, allow=("plain", "c_full", "c_prefix", 
             cs = [r["xyz"] for r in g["rows"]] + [tuple(round(float(x), 3) for x in np.mean([r["xyz"] for r in g["rows"]], axis=0))]
             if any(not (0.0 <= x < bx[k] - 1e-9) for c in cs for k, x in enumerate(c)):
                 return None, info
-        if mode in ("mc", "mc_res"):
+        if mode == "c_mc":
+            rows = []
+            for g in info["c_part"]:
+                for r in g["rows"]:
+                    rows.append({"resid": g["resid"], "resname": T.shown(sysd, g["resname"]), "name": r["name"], "xyz": r["xyz"]})
+            T.write_gro(os.path.join(workdir, "in.gro"), rows, base["box"])
+            kw["coordpath"] = Path(workdir) / "in.gro"
+        if mode in ("mc", "mc_res", "c_mc"):
             rows = []
             for g in sup:
                 c = np.mean([r["xyz"] for r in g["rows"]], axis=0)
@@ -121,11 +135,21 @@ def make_options(rng, sysd, workdir, res, allow=("plain", "c_full", "c_prefix", 
             kw["coordpath_meta"] = Path(workdir) / "in_mc.gro"
         else:
             rows = []
-            for g in sup:
+            for gi, g in enumerate(sup):
                 for r in g["rows"]:
-                    rows.append({"resid": g["resid"], "resname": g["resname"], "name": r["name"], "xyz": r["xyz"]})
-            T.write_gro(os.path.join(workdir, "in.gro"), rows, base["box"])
-            kw["coordpath"] = Path(workdir) / "in.gro"
+                    rows.append({"resid": g["resid"], "resname": T.shown(sysd, g["resname"]), "name": r["name"], "xyz": r["xyz"]})
+                if gi + 1 == len(sup) or sup[gi + 1]["mol"] != g["mol"]:
+                    rows[-1]["ter"] = True
+            if rng.random() < 0.3 and 0 < len(rows) < 9999:
+                # the same structure as a PDB file, one TER record after every molecule
+                T.write_pdb(os.path.join(workdir, "in.pdb"), rows, base["box"])
+                kw["coordpath"] = Path(workdir) / "in.pdb"
+                bump(res, "pdb_inputs")
+                if len({g["mol"] for g in sup}) >= 3:
+                    bump(res, "pdb_inputs_with_three_or_more_molecules")
+            else:
+                T.write_gro(os.path.join(workdir, "in.gro"), rows, base["box"])
+                kw["coordpath"] = Path(workdir) / "in.gro"
             info["supplied"] = sup
         # a conflicting -box is ignored in favour of the structure's box
         if rng.random() < 0.3:
